@@ -3,7 +3,7 @@
    stored under [id]; [extent] = the MIN(start)/MAX(end) query of _update_relations; [derive] the
    derived features it writes; [insert_derived] their insertion (merge on collision). *)
 From GV Require Import Base.Prelude Base.PyStr Model.Bins Model.DB Model.Parser Model.Import Model.GtfSpec
-  Proofs.C03Proofs Proofs.C03End.
+  Proofs.C03Proofs Proofs.C03End Proofs.C03Ids.
 Open Scope Z_scope.
 
 (* no line is ever its own parent or child — for every line, key and configuration *)
@@ -41,6 +41,17 @@ Theorem C03_extent_min_max : forall g st p s e strand seqid, extent g st p = Som
   (exists k, In k (kids_of g st p) /\ r_strand k = strand /\ r_seqid k = seqid).
 Proof. exact l_extent_min_max. Qed.
 Print Assumptions C03_extent_min_max.
+
+(* the derived ids ARE pairwise distinct (the hypothesis of the end-to-end theorems below) whenever every transcript has
+   one gene and transcript ids differ from gene ids: the pair list is sorted by gene (ORDER BY gene), so derive writes each
+   gene once, at the first pair of its block *)
+Theorem C03_derived_ids_distinct : forall g st ds, str_eqb (g_gkey g) (g_tkey g) = false ->
+  derive g st (tg_pairs g st) None = Ok ds ->
+  NoDup (map fst (tg_pairs g st)) ->
+  (forall t gn, In t (map fst (tg_pairs g st)) -> In gn (map snd (tg_pairs g st)) -> t <> gn) ->
+  NoDup (map (did g) ds).
+Proof. exact l_derived_ids_nodup. Qed.
+Print Assumptions C03_derived_ids_distinct.
 
 Section C03.
   Variable call : nat -> row -> option str.
